@@ -11,9 +11,9 @@ LEVEL = "model_checking"
 LEVEL_TEXT = ("TLC explores Expand.tla (a character-level step machine, one action per construct, recursive calls as a frame stack, "
               "the %put/%get store) over ALL inputs of up to 6-7 symbols from several small alphabets x environments x store "
               "histories, checking OutputBounded, NeverReadsPastEnd, SingleQuoteOpaque, PrefixSuffixPreserved and PutThenGet on "
-              "every step; a second TLC run with a 6-character limit model-checks truncation.  Every (store, env, text) -> "
+              "every step; a second TLC run with a 3-character limit model-checks truncation at every position.  Every (store, env, text) -> "
               "(acceptable results, store') edge TLC emits is executed on spifconf_shell_expand of the current tree under ASan: "
-              "text at the start of a CONFIG_BUFF block with a poisoned tail pattern, stack pre-filled 0xAA and 0x55, an exact-size "
+              "text at the start of a CONFIG_BUFF block whose tail holds a non-NUL fill pattern, stack pre-filled 0xAA and 0x55, an exact-size "
               "block when the result is not longer, two passes with different malloc fill; results, store projection and heap "
               "growth are compared.  Long random texts (up to the 20479 limit and beyond it) recorded on the implementation are "
               "validated by TLC against ExpandTrace.tla.")
